@@ -113,8 +113,19 @@ def _repr_float(dumper, f):
 _FloatDumper.add_representer(float, _repr_float)
 
 
-def dump_yaml(docs, flow=None):
-    return yaml.dump_all(docs, Dumper=_FloatDumper, default_flow_style=flow, allow_unicode=True, sort_keys=True, width=1000)
+def dump_yaml(docs, flow=None, sep="---\n"):
+    """Documents are written one by one and joined by a separator LINE (`---`), the form bkl documents.
+    Other legal spellings of a document start (`--- {a: 1}`, `--- # comment`, `--- ` with trailing blank)
+    are requested explicitly through `sep` (C04 probes them)."""
+    parts = [yaml.dump(d, Dumper=_FloatDumper, default_flow_style=flow, allow_unicode=True, sort_keys=True, width=1000) for d in docs]
+    if sep == "inline":
+        # content on the separator line: only possible for flow-style / scalar documents
+        out = parts[0]
+        for d, p in zip(docs[1:], parts[1:]):
+            one = yaml.dump(d, Dumper=_FloatDumper, default_flow_style=True, allow_unicode=True, sort_keys=True, width=100000)
+            out += "--- " + one
+        return out
+    return sep.join(parts)
 
 
 def _toml_str(s):
